@@ -96,7 +96,9 @@ RULE_TL = ("TLC enumerates every keyframe list within the bounds of the cfg (pos
            "over 2, and lists whose positions are distinct but closer together than f32::EPSILON (0.5 and the next float); each builder "
            "state is one behaviour, printed with the spec's predicted value terms at EVERY tick from 0 to past the end for timings "
            "drawn from a pool of 16 (delay/repeat/reverse/non-dyadic cycles) and replayed through the real builder + derive(Animate) "
-           "timeline at several tick scales; distinct = distinct builder states x scales; non-trivial = at least one keyframe")
+           "timeline at several tick scales, once more with all float values scaled towards f32::MAX, one line in 24 with one keyframe repeated "
+           "66 000 times (neutral by the model's DupNeutral law), and with an i32 beyond 2^24 at a lone 100% keyframe where the prediction is "
+           "exactly that keyframe; distinct = distinct builder states x scales; non-trivial = at least one keyframe")
 
 
 @check("C01")
@@ -233,10 +235,11 @@ def animator_legA(ctx):
     return merge_reports(reps)
 
 
-RULE_AN = ("TLC enumerates ALL histories of advance(dt in {0,1,3})/set_state(s in 4 states) up to the depth in tlc_runs for each of 5 animator "
-           "configurations (finite, delayed, repeating+reversing, infinite, merged, eased and un-animated states), plus pseudo-random histories "
+RULE_AN = ("TLC enumerates ALL histories of advance(dt in {0,1,3})/set_state(s in 4 states) up to the depth in tlc_runs for each of 8 animator "
+           "configurations (finite, delayed, repeating+reversing, infinite, merged, eased, keyframe-less and un-animated states), plus pseudo-random histories "
            "of length 40 and histories that start with one 2^24-tick advance followed by fine frames; every history is replayed on a real "
-           "StateAnimatorBuilder animator at 2-3 tick scales (tick >= 1/8 s, the exact grid of Duration/as_secs_f32) and after EVERY call "
+           "StateAnimatorBuilder animator at 2-3 tick scales (tick >= 1/8 s, the exact grid of Duration/as_secs_f32; plus tolerance passes at "
+           "1/64 s, 0.1 s and 512 ns ticks that skip the discontinuity instants) and after EVERY call "
            "current_state, is_ended, current_values (exact terms), the internal clock and pause record (hook), bit-identity of current_values "
            "across set_state, and bit-identity with a twin animator that receives the same time in a different partition are compared; leg B: "
            "random configurations (random timelines per state) driven by random histories are logged from the real code and validated by TLC "
@@ -421,9 +424,10 @@ def objects_legA(ctx, release=False):
 
 
 RULE_OBJ = ("TLC generates operation histories (update at arbitrary, non-monotone times into targets with different prior contents / start_with / clone) "
-            "on a heap of up to 3 timeline objects, for 10 object shapes and for EVERY list of 0..3 components over 8 timeline shapes (all orders), "
+            "on a heap of up to 3 timeline objects, for 13 object shapes and for EVERY list of 0..3 components over 8 timeline shapes (all orders), "
             "with the spec's predictions (value terms and aggregate metadata after every operation); replayed on real P4Timeline / MergedTimeline "
-            "objects incl. idempotence, independence of prior target contents, and the raw vs. wrapped single timeline")
+            "objects at ticks from 2^-27 s to 32 s incl. idempotence, independence of prior target contents, bit-identity with a timeline built "
+            "afresh from the same description (+ latest start_with) that was never evaluated before, and the raw vs. wrapped single timeline")
 
 
 @check("C09")
@@ -622,9 +626,9 @@ def c15(ctx):
 
 
 RULE_GRAMMAR = ("TLC draws pseudo-random sentences (<= 7 arguments, every prefix) over the argument alphabet of Grammar.tla (duration/delay literal forms int, float, "
-                "underscored, s/ms, optional `for`; Nx / infinite; reverse; easing paths; from/to/N% keyframes incl. fractional percentages and any field subset), checks "
+                "underscored, s/ms incl. fractional milliseconds, optional `for`; Nx / infinite; reverse; easing paths; from/to/N% keyframes incl. fractional percentages and any field subset), checks "
                 "that the Reading is invariant under swapping arguments of different kinds, and prints each with its Reading and predicted values; a printer renders the "
-                "macro tokens and the builder twin; the real macro compiles them; at run time macro == twin bit for bit (metadata and values), macro == spec within "
+                "macro tokens (one sentence in three with every value spelled through a caller local named like something an expansion might bind) and the builder twin; the real macro compiles them; at run time macro == twin bit for bit (metadata and values), macro == spec within "
                 "tolerance, merged lists == MergedTimeline::of(twins) and == ordered overlay; ill-formed variants (one per class, embedded in generated sentences) must be "
                 "rejected by rustc")
 
